@@ -204,7 +204,8 @@ def run_tasks(ctx, tasks, targets, budget=240, workers=4):
                     plan.append((sub, target, sp))
             else:
                 plan.append((t, target, parsed))
-    jobs = [X_.Job((t["id"], target), t["desc"], target, [(c[0], c[1]) for c in t["calls"]], t.get("stateless", False), budget)
+    jobs = [X_.Job((t["id"], target), t["desc"], target, [(c[0], c[1]) for c in t["calls"]], t.get("stateless", False),
+                   40 if t["kind"] == "program" else budget)
             for t, target, _p in plan]
     X_.run_jobs(jobs, workers=workers)
     first = {}
